@@ -33,9 +33,10 @@ class Clause:
 @dataclass
 class RaiseClause:
     exc: str
-    when: ast.Lambda | None
+    when: ast.Lambda | None       # raised if and only if this pre-state condition holds
     ensures: list
     serves: list
+    only_if: ast.Lambda | None = None   # may be raised only if this pre-state condition holds
 
 
 @dataclass
@@ -64,6 +65,7 @@ class Contract:
     serves: list = field(default_factory=list)
     abstract: bool = False        # interface contract without a body to verify (e.g. builder callbacks)
     pure: bool = False
+    bounded_only: str = ""     # non-empty: the proof is not attempted; reason; only the bounded stand-in runs
     file: str = ""
     notes: str = ""
 
@@ -74,6 +76,7 @@ class KlassDecl:
     fields: dict                  # attr -> type expr (ast)
     invariant: list               # list[Clause] over (self)
     record: bool = True           # objects of this class can be frozen into a record value
+    of: str | None = None         # real class this declaration is a (ghost) view of
 
 
 class Registry:
@@ -90,6 +93,7 @@ class Registry:
         self.map_cache: dict = {}
         self.uf_cache: dict = {}
         self.qfacts: list = []        # quantified facts registered for instantiation
+        self.hooks: dict = {}
         self._class_rec: dict[str, TRec] = {}
         self._load_typed_dicts()
         for fn in sorted(os.listdir(CONTRACT_DIR)):
@@ -308,19 +312,40 @@ class Registry:
     def class_record(self, cls: str) -> TRec | None:
         if cls in self._class_rec:
             return self._class_rec[cls]
-        kd = self.klasses.get(cls)
-        if kd is None or not kd.record:
+        kd = self.klasses.get(cls) or self.klass_of(cls)
+        if kd is None:
             return None
         fields = []
         for k, tx in kd.fields.items():
-            ty = self.parse_type(tx)
-            if not isinstance(ty, Ty):
+            ty = self.value_type(self.parse_type(tx))
+            if ty is None:
                 return None
             fields.append((k, ty, False))
-        r = TRec("C_" + cls, fields)
-        r.cls = cls
+        r = TRec("C_" + kd.name, fields)
+        r.cls = kd.of or kd.name
+        r.view = kd.name
         self._class_rec[cls] = r
+        self._class_rec[kd.name] = r
         return r
+
+    def value_type(self, t):
+        """z3-level value type corresponding to a (possibly heap-shaped) DSL type."""
+        if isinstance(t, Ty):
+            return t
+        if isinstance(t, tuple):
+            if t[0] == "obj":
+                return self.class_record(t[1])
+            if t[0] == "list":
+                return TSeq(t[1])
+            if t[0] == "dict":
+                return t[1]
+            if t[0] == "pytuple":
+                items = [self.value_type(x) for x in t[1]]
+                return TTuple(items) if all(i is not None for i in items) else None
+            if t[0] == "opt":
+                inner = self.value_type(t[1])
+                return TOpt(inner) if inner is not None else None
+        return None
 
     # ------------------------------------------------------------------ sidecar parsing
     def _load_sidecar(self, path):
@@ -331,6 +356,14 @@ class Registry:
                 fn = ast.unparse(node.value.func)
                 if fn == "contract":
                     self._parse_contract(node.value, path)
+                elif fn == "contract_family":
+                    kw = self._kw(node.value)
+                    names = [x.value for x in kw["names"].elts]
+                    src = ast.unparse(kw["template"])
+                    for nm in names:
+                        x, _, k = nm.partition(":")
+                        call = ast.parse(src.replace("$X", x).replace("$K", k), mode="eval").body
+                        self._parse_contract(call, path)
                 elif fn == "klass":
                     self._parse_klass(node.value)
                 elif fn == "lemma":
@@ -395,7 +428,8 @@ class Registry:
                 rkw = self._kw(r)
                 rs = [x.value for x in rkw["serves"].elts] if "serves" in rkw else serves
                 raises.append(RaiseClause(exc=r.args[0].value, when=rkw.get("when"),
-                                          ensures=self._parse_clauses(rkw.get("ensures"), rs), serves=rs))
+                                          ensures=self._parse_clauses(rkw.get("ensures"), rs), serves=rs,
+                                          only_if=rkw.get("only_if")))
         variants = []
         if "variants" in kw:
             for v in kw["variants"].elts:
@@ -408,6 +442,7 @@ class Registry:
                      raises=raises, modifies=[x.value for x in kw["modifies"].elts] if "modifies" in kw else [],
                      loops=loops, inline=flag("inline"), trusted=flag("trusted"), generator=flag("generator"),
                      variants=variants, serves=serves, abstract=flag("abstract"), pure=flag("pure"), file=path,
+                     bounded_only=kw["bounded_only"].value if "bounded_only" in kw else "",
                      notes=kw["notes"].value if "notes" in kw else "")
         self.contracts[qual] = c
 
@@ -417,7 +452,8 @@ class Registry:
         fields = {k.arg: k.value for k in kw["fields"].keywords} if "fields" in kw else {}
         inv = self._parse_clauses(kw.get("invariant"), [])
         rec = not ("record" in kw and isinstance(kw["record"], ast.Constant) and kw["record"].value is False)
-        self.klasses[name] = KlassDecl(name, fields, inv, rec)
+        of = kw["of"].value if "of" in kw else None
+        self.klasses[name] = KlassDecl(name, fields, inv, rec, of)
 
     # ------------------------------------------------------------------ type expressions of the DSL
     def parse_type(self, tx):
@@ -465,6 +501,10 @@ class Registry:
                 if isinstance(inner, Ty):
                     return TOpt(inner)
                 return ("opt", inner)
+            if fn == "Raw":      # an object of the named class before __init__ has run (no fields yet)
+                return ("raw", tx.args[0].value)
+            if fn == "PyTuple":
+                return ("pytuple", [self.parse_type(a) for a in tx.args])
             if fn == "Val":     # immutable record view of a class
                 r = self.class_record(tx.args[0].value)
                 if r is None:
@@ -492,7 +532,7 @@ class Registry:
             flds = {}
             for k, tx in kd.fields.items():
                 flds[k] = self.fresh_of(ex, st, self.parse_type(tx), f"{name}.{k}", owner)
-            ref = st.alloc(ObjCell(ty[1], flds, owner))
+            ref = st.alloc(ObjCell(kd.of or ty[1], flds, owner, ty[1]))
             for cl in kd.invariant:
                 t = self.spec_eval(ex, st, cl.fn, {"self": ref})
                 st.assume(self.as_bool(ex, st, t), f"inv:{ty[1]}.{cl.name}")
@@ -508,6 +548,10 @@ class Registry:
             return st.alloc(DictCell(items, present, r, owner))
         if kind == "fn":
             return VFunc("<abstract>", None, None, None)
+        if kind == "raw":
+            return st.alloc(ObjCell(ty[1], {}, owner))
+        if kind == "pytuple":
+            return VTuple([self.fresh_of(ex, st, t, f"{name}.{i}", owner) for i, t in enumerate(ty[1])])
         raise EngineUnsupported(f"fresh value of {ty!r}")
 
     # ------------------------------------------------------------------ globals
@@ -594,6 +638,23 @@ class Registry:
             return ex.special_quant(st, e, fname)
         if fname in ("fold", "fold_prefix") and isinstance(ex, SpecExecutor):
             return ex.special_fold(st, e, fname)
+        if fname == "mk" and isinstance(ex, SpecExecutor):
+            view = e.args[0].value
+            r = self.class_record(view)
+            vals = {}
+            for k in e.keywords:
+                fty = r.index[k.arg][0]
+                vals[k.arg] = to_term(ex.freeze(st, ex.one(st, k.value), fty), fty)
+            return [(st, VRec(r, r.mk(vals)))]
+        if fname == "ghost" and isinstance(ex, SpecExecutor):
+            nv = ex.one(st, e.args[0])
+            name = concrete_str(nv.t)
+            if name is None:
+                raise EngineUnsupported("ghost function name must be constant")
+            args = [ex.one(st, a) for a in e.args[1:]]
+            ts = [to_term(ex.freeze(st, a)) for a in args]
+            f = strings.uf("ghost_" + name, *[t.sort() for t in ts], BOOL)
+            return [(st, VBool(f(*ts)))]
         if fname == "seq_empty":
             ty = self._as_ty(self.parse_type(e.args[0]))
             return [(st, VSeq(ty, z3.Empty(TSeq(ty).sort())))]
@@ -700,7 +761,18 @@ class Registry:
             dyn = self.prog.find_method(st.cell(f.self_val).cls, f.node.name)
             if dyn is not None and dyn.qualname != f.qualname and not st.ghost.get("$static_dispatch"):
                 pass  # receiver class is exact in this model (objects are created with their concrete class)
+        hook = getattr(self, "hooks", {}).get(f.qualname)
+        if hook is not None:
+            env = self.bind_params(ex, st, f.node, f.self_val, args, kwargs, node)
+            return hook(ex, st, f, env, node)
         c = self.contracts.get(f.qualname)
+        view = None
+        if isinstance(f.self_val, VRef) and isinstance(st.cell(f.self_val), ObjCell):
+            view = st.cell(f.self_val).view
+        elif isinstance(f.self_val, VRec):
+            view = getattr(f.self_val.ty, "view", None)
+        if view is not None and f"{f.qualname}@{view}" in self.contracts:
+            c = self.contracts[f"{f.qualname}@{view}"]
         if c is not None and not c.inline and not (isinstance(ex, SpecExecutor)):
             return self.apply_contract(ex, st, c, f, args, kwargs, node)
         if c is not None and c.inline or isinstance(ex, SpecExecutor) or self.is_trivial(f):
@@ -807,14 +879,25 @@ class Registry:
             ex.oblige(st, f"call.pre[{short}.{cl.name}@{ln}]", ex.truth(st, t), kind="call.pre",
                       serves=cl.serves or ex.cur_serves, lineno=ln)
         pre_heap = dict(st.heap)
+        whens = []
+        for rc in c.raises:      # raise conditions are conditions on the pre-state
+            whens.append(ex.truth(st, self.spec_eval(ex, st, rc.when, self.lambda_env(rc.when, env)))
+                         if rc.when is not None else None)
         self.havoc_modifies(ex, st, c.modifies, env)
         outs = []
         # exceptional outcomes
         normal = st.clone()
+        onlyifs = []
         for rc in c.raises:
+            onlyifs.append(ex.truth(st, self.spec_eval(ex, _pre_state(st, pre_heap), rc.only_if, self.lambda_env(rc.only_if, env)))
+                           if rc.only_if is not None else None)
+        for (rc, w), oi in zip(zip(c.raises, whens), onlyifs):
             s = st.clone()
+            if oi is not None:
+                if not ex.feasible(s, oi):
+                    continue
+                s.assume(oi, f"raises-only-if:{rc.exc}")
             if rc.when is not None:
-                w = ex.truth(s, self.spec_eval(ex, s, rc.when, self.lambda_env(rc.when, env), pre_heap=pre_heap))
                 if not ex.feasible(s, w):
                     normal.assume(z3.Not(w), "no-raise")
                     continue
@@ -834,15 +917,46 @@ class Registry:
         renv = dict(env)
         renv["result"] = result
         for cl in c.ensures:
+            if self.bind_identity(ex, s, cl.fn, renv):
+                continue
             t = self.spec_eval(ex, s, cl.fn, self.lambda_env(cl.fn, renv), pre_heap=pre_heap)
             s.assume(ex.truth(s, t), f"post:{short}.{cl.name}")
         outs.append((s, result))
         return outs
 
+    def klass_of(self, cls):
+        """klass declaration of cls or of its nearest declared base class"""
+        seen = set()
+        while cls and cls not in seen:
+            seen.add(cls)
+            if cls in self.klasses:
+                return self.klasses[cls]
+            ci = self.prog.classes.get(cls)
+            if ci is None:
+                return None
+            cls = next((b for b in ci.bases if b in self.prog.classes), None)
+        return None
+
+    def bind_identity(self, ex, st, fn: ast.Lambda, env) -> bool:
+        """An ensures clause of the form `obj.attr is expr` (object identity) is applied as a store."""
+        b = fn.body
+        if isinstance(b, ast.Compare) and len(b.ops) == 1 and isinstance(b.ops[0], ast.Is) \
+                and isinstance(b.left, ast.Attribute) and not (isinstance(b.comparators[0], ast.Constant)):
+            lenv = self.lambda_env(fn, env)
+            base = self.spec_eval(ex, st, b.left.value, lenv)
+            val = self.spec_eval(ex, st, b.comparators[0], lenv)
+            if isinstance(base, VRef) and isinstance(st.cell(base), ObjCell):
+                ex.setattr(st, base, b.left.attr, val)
+                return True
+        return False
+
     def fresh_exception(self, ex, st, cls) -> VRef:
-        kd = self.klasses.get(cls)
+        kd = self.klass_of(cls)
         if kd is not None:
-            return self.fresh_of(ex, st, ("obj", cls), "exc", "local")
+            ref = self.fresh_of(ex, st, ("obj", kd.name), "exc", "local")
+            c = st.cell(ref)
+            st.set_cell(ref, ObjCell(cls, c.fields, c.owner, c.view))
+            return ref
         # default shape of the ParserException family: location dict + message
         flds = {"args": VTuple([fresh_val(T_STR, "exc_msg")])}
         loc = self.records.get("Location") or self.record("Location")
@@ -903,15 +1017,19 @@ class Registry:
             else:
                 st.set_cell(ref, ListCell(c.elem, fresh(TSeq(c.elem).sort(), nm), None, c.owner))
         elif isinstance(c, ObjCell):
-            kd = self.klasses.get(c.cls)
+            kd = self.klass_of(c.cls)
             flds = {}
+            if kd is not None:
+                for k, tx in kd.fields.items():
+                    if k not in c.fields:
+                        flds[k] = self.fresh_of(ex, st, self.parse_type(tx), f"{nm}.{k}", c.owner)
             for k, v in c.fields.items():
                 if kd is not None and k in kd.fields:
                     flds[k] = self.fresh_of(ex, st, self.parse_type(kd.fields[k]), f"{nm}.{k}", c.owner) \
                         if not isinstance(v, VRef) else self.havoc_value(ex, st, v, f"{name}.{k}")
                 else:
                     flds[k] = self.havoc_value(ex, st, v, f"{name}.{k}")
-            st.set_cell(ref, ObjCell(c.cls, flds, c.owner))
+            st.set_cell(ref, ObjCell(c.cls, flds, c.owner, c.view))
         elif isinstance(c, DictCell):
             items = {k: self.havoc_value(ex, st, v, f"{name}.{k}") for k, v in c.items.items()}
             present = {}
@@ -926,7 +1044,7 @@ class Registry:
 
     # ------------------------------------------------------------------ loops
     def loop_contract(self, ex: Executor, node) -> LoopContract | None:
-        c = self.contracts.get(ex.func)
+        c = self.contracts.get(getattr(ex, "contract_name", None) or ex.func)
         if c is None:
             return None
         fi = self.prog.funcs.get(ex.func)
@@ -1025,6 +1143,20 @@ class Registry:
                             return True
         return False
 
+    def retype_locals(self, ex, st, lc):
+        """Empty python-level lists whose type the loop contract declares become typed (z3-level) empty lists."""
+        if lc is None:
+            return
+        for n, tx in lc.types.items():
+            v = st.env.get(n)
+            if isinstance(v, VRef) and isinstance(st.cell(v), ListCell):
+                c = st.cell(v)
+                if c.elem is None and not c.items:
+                    pt = self.parse_type(tx)
+                    el = pt.elem if isinstance(pt, TSeq) else (pt[1] if isinstance(pt, tuple) and pt[0] == "list" else None)
+                    if el is not None:
+                        st.set_cell(v, ListCell(el, z3.Empty(TSeq(el).sort()), None, c.owner))
+
     def check_invariant(self, ex, st, lc: LoopContract, ordinal, phase, entry_state, lineno):
         for cl in lc.invariant:
             env = dict(st.env)
@@ -1042,6 +1174,7 @@ class Registry:
             raise EngineUnsupported(f"while loop at line {node.lineno} has no loop contract")
         if node.orelse:
             raise EngineUnsupported("while/else")
+        self.retype_locals(ex, st, lc)
         entry = st.clone()
         self.check_invariant(ex, st, lc, ordinal, "init", entry, node.lineno)
         head = st.clone()
@@ -1152,6 +1285,7 @@ class Registry:
 
     def cut_for(self, ex, st, node, lc, ordinal, el, seq, mode, flt):
         n = z3.Length(seq)
+        self.retype_locals(ex, st, lc)
         entry = st.clone()
         st.env["_i"] = VInt(ival(0))
         st.env["_seq"] = VStr(seq) if el == "char" else VSeq(el, seq)
@@ -1323,6 +1457,12 @@ class Registry:
         return z3.Contains(m.t, z3.Unit(xt))
 
 
+def _pre_state(st, pre_heap):
+    s2 = st.clone()
+    s2.heap = dict(pre_heap)
+    return s2
+
+
 @dataclass
 class MapFact:
     mt: Any
@@ -1369,7 +1509,8 @@ BUILTIN_NAMES = {"len", "str", "list", "next", "iter", "enumerate", "map", "filt
 SPEC_BUILTINS = {"implies", "iff", "lstrip", "rstrip", "strip", "lead_ws", "trail_ws", "lead_blank", "trail_blank",
                  "itos", "seq_empty", "iter_pos", "is_space", "all_space", "ite", "length", "strip_crlf",
                  "replace_all", "join_lf", "is_none", "opt_val", "some", "none_of", "typed", "rec_has",
-                 "strip_blank", "startswith", "endswith", "split_head", "first_index", "char_at", "contains_ws"}
+                 "strip_blank", "startswith", "endswith", "split_head", "first_index", "char_at", "contains_ws",
+                 "split_off", "split_on", "first_ws_hash"}
 
 
 # ---------------------------------------------------------------------------------------------
